@@ -187,6 +187,31 @@ fn coded_case<T: Sc>(rng: &mut Rng, case: u64, out: &mut CaseOut) {
     }
 }
 
+/// states in which the basis almost reproduces the derivative columns: three close decays plus offset and
+/// linear term on a short interval, so that |(I-P) W D_k C| is 1e-3 .. 1e-5 of |W D_k C| (full rank, moderate
+/// condition number) - sign and size of such nearly vanishing columns are part of the formula too
+fn near_dependent_case<T: Sc>(rng: &mut Rng, case: u64, out: &mut CaseOut) {
+    use crate::zoo::{grid, Basis, ModelSpec};
+    let stream = "nearly-dependent-derivatives";
+    let n = rng.int(12, 40);
+    let t1 = rng.range(0.8, 1.2);
+    let taus = vec![t1, t1 * rng.range(1.4, 1.6), t1 * rng.range(2.0, 2.4)];
+    let x = grid(rng, n, 0.0, 3.0 * t1, false);
+    let mspec = ModelSpec { x, basis: vec![Basis::Exp(0), Basis::Exp(1), Basis::Exp(2), Basis::Const, Basis::Lin], np: 3 };
+    let s = *rng.pick(&[1usize, 1, 2]);
+    let g = gen_problem_for(rng, &GenOpts { noise: 0.05, force_s: Some(s), ..Default::default() }, mspec, taus.clone());
+    let mut spec = g.spec;
+    spec.alpha0 = perturb_alpha(rng, &taus, 0.03);
+    let Ok(prob) = build_problem_auto::<T>(&spec) else {
+        violation(out, stream, case, "valid problem rejected by the builder", spec.to_json());
+        return;
+    };
+    let alpha: Vec<f64> = prob.params().iter().map(|v| v.w()).collect();
+    if let (Some(c), Some(j)) = (prob.coeffs(), prob.jacobian()) {
+        let _ = check_jacobian::<T>(out, stream, case, &spec, &alpha, &widen(&c), &widen(&j), "nearly dependent derivative columns");
+    }
+}
+
 fn objective_at<T: Sc>(spec: &ProblemSpec, alpha: &[f64]) -> Option<f64> {
     let mut s = spec.clone();
     s.alpha0 = alpha.to_vec();
@@ -308,12 +333,13 @@ fn fit_case<T: Sc>(rng: &mut Rng, case: u64, out: &mut CaseOut) {
 }
 
 pub fn run(ctx: &Ctx) {
-    ctx.rule("[coded-builder-models: builder-made models over position-coded closures of arity 1..8 on arbitrary ordered subsets of the model parameters (the C16 family) inside problems of all four flavours, 3 states each, same reference] states: zoo problems (Z2/Z3 share parameters between functions and have two parameters per function) with 1..7 columns, six weight classes, f32/f64, four flavours, alpha 0.4x..2.5x around the generating values; every Jacobian column block is compared with -(I-QQ^T)·W·D_k·c_s (Q from the oracle's Householder QR) and must be orthogonal to range(W·Phi); each derivative call in turn is made to fail and must yield no Jacobian. gradient: 2J^Tr against Richardson central differences of |r|^2 (f64, kappa<=1e4). fit-exchanges: every Jacobian handed to the optimizer. Only states with numerically full column rank (kappa <= 1e8 / 1e3 for f32) are in the property's domain. non-trivial = non-zero Jacobian and (S>1 or non-constant weights)");
+    ctx.rule("[nearly-dependent-derivatives: three close decays (ratios 1.5, 2.2) + offset + linear term on [0, 3 tau_1]: the projected derivative columns are 1e-3..1e-5 of the unprojected ones] [coded-builder-models: builder-made models over position-coded closures of arity 1..8 on arbitrary ordered subsets of the model parameters (the C16 family) inside problems of all four flavours, 3 states each, same reference] states: zoo problems (Z2/Z3 share parameters between functions and have two parameters per function) with 1..7 columns, six weight classes, f32/f64, four flavours, alpha 0.4x..2.5x around the generating values; every Jacobian column block is compared with -(I-QQ^T)·W·D_k·c_s (Q from the oracle's Householder QR) and must be orthogonal to range(W·Phi); each derivative call in turn is made to fail and must yield no Jacobian. gradient: 2J^Tr against Richardson central differences of |r|^2 (f64, kappa<=1e4). fit-exchanges: every Jacobian handed to the optimizer. Only states with numerically full column rank (kappa <= 1e8 / 1e3 for f32) are in the property's domain. non-trivial = non-zero Jacobian and (S>1 or non-constant weights)");
     ctx.assume("reference mismatches explained by the measured reconstruction error of the dependency's SVD are attributed to KF-1");
     let t = ctx.tier;
     let b = t.pick(30.0, 900.0);
     ctx.run_cases("states", t.pick(10000, 400000), b, |r, c, o| if c % 3 == 0 { states_case::<f32>(r, c, o) } else { states_case::<f64>(r, c, o) });
     ctx.run_cases("gradient", t.pick(2000, 80000), b, gradient_case);
     ctx.run_cases("fit-exchanges", t.pick(1500, 64000), b, |r, c, o| if c % 4 == 0 { fit_case::<f32>(r, c, o) } else { fit_case::<f64>(r, c, o) });
+    ctx.run_cases("nearly-dependent-derivatives", t.pick(3000, 90000), b, |r, c, o| if c % 5 == 0 { near_dependent_case::<f32>(r, c, o) } else { near_dependent_case::<f64>(r, c, o) });
     ctx.run_cases("coded-builder-models", t.pick(4000, 120000), b, |r, c, o| if c % 3 == 0 { coded_case::<f32>(r, c, o) } else { coded_case::<f64>(r, c, o) });
 }
